@@ -4,9 +4,11 @@ package main
 import (
 	_ "verif/harness/inproc"
 	_ "verif/harness/keylab"
+	_ "verif/harness/model"
 	_ "verif/harness/pdlab"
 	_ "verif/harness/placelab"
 	_ "verif/harness/procluster"
+	_ "verif/harness/raftsim"
 	_ "verif/harness/smlab"
 	_ "verif/harness/synclab"
 )
